@@ -5,7 +5,7 @@
    infinity written (0,0)).  Specification: SM2/SM2Spec.v (GM/T 0003.3 6.1, both roles). *)
 From Coq Require Import List NArith ZArith Bool Lia Arith.
 From GmsmVerif Require Import Lib.Outcome EC.ECAffine EC.SM2Curve SM3.SM3Spec
-     SM2.SM2Bytes SM2.SM2BytesProofs SM2.SM2Spec SM2.DER SM2.SM2Model SM2.SM2SignProofs SM2.SM2Group
+     SM2.SM2Bytes SM2.SM2BytesProofs SM2.SM2Spec SM2.DER SM2.SM2Model SM2.SM2SignProofs SM2.SM2GroupMin
      SM2.SM2EncProofs SM2.SM2KxProofs.
 From GmsmVerif Require Import SM2.SM2ParamsTie Gen.SM2Params Gen.SM2SigParams.
 Import ListNotations.
@@ -21,9 +21,11 @@ Print Assumptions C13_keXHat_spec.
    K = KDF(xV || yV || ZA || ZB, klen); S1 = H(02 || yV || H(xV || ZA || ZB || x1 || y1 || x2 || y2)), S2 with 03;
    all coordinates 32 bytes; (x1,y1) is the INITIATOR's ephemeral point in both roles.
    For all keys (own coordinates below 2^256, peer long-term key a curve point), ephemerals, identities below
-   8192 bytes and key lengths.  The code additionally refuses an all-zero K (the standard is silent). *)
+   8192 bytes and key lengths.  The code additionally refuses an all-zero K (the standard is silent).
+   Only premise: p is prime (closure of the group operations, so that the API pair (0,0) is never a finite
+   point); no associativity, nothing about n or the order of G. *)
 Theorem C13_kx_is_standard :
-  SM2Facts -> forall klen ida idb pri pub rpri rpub thisISA,
+  P_prime -> forall klen ida idb pri pub rpri rpub thisISA,
     Z.of_nat (length ida) < 8192 -> Z.of_nat (length idb) < 8192 ->
     in256 (Pub pri) -> in256 (Pub rpri) -> sm2_valid (Some pub) = true -> 0 <= fst rpub -> 0 <= snd rpub ->
     (forall o, kx_spec thisISA (Z.to_nat klen) ida idb (D pri) (Pub pri) (D rpri) (Pub rpri) pub rpub = Some o ->
@@ -34,9 +36,10 @@ Theorem C13_kx_is_standard :
 Proof. exact keyExchange_is_spec. Qed.
 Print Assumptions C13_kx_is_standard.
 
-(* ---- 2. agreement: A's (K, S1, S2) equal B's, for all key pairs and ephemerals in [1, n-1] ------------ *)
+(* ---- 2. agreement: A's (K, S1, S2) equal B's, for all key pairs and ephemerals in [1, n-1] ------------
+   Premises: p prime, associativity, [n]G = O, [k]G finite for 0 < k < n ("n prime" is not needed). *)
 Theorem C13_kx_agree :
-  SM2Facts -> forall klen ida idb dA dB rA rB,
+  P_prime -> Add_assoc -> G_order_divides_n -> G_multiples_finite -> forall klen ida idb dA dB rA rB,
     Z.of_nat (length ida) < 8192 -> Z.of_nat (length idb) < 8192 ->
     1 <= dA < sm2_n -> 1 <= dB < sm2_n -> 1 <= rA < sm2_n -> 1 <= rB < sm2_n ->
     KeyExchangeA klen ida idb (key_of dA) (ScalarBaseMult dB) (key_of rA) (ScalarBaseMult rB) =
@@ -48,12 +51,24 @@ Print Assumptions C13_kx_agree.
 
 (* the specification itself is symmetric (same V, hence same K, S1, S2) *)
 Theorem C13_kx_spec_agree :
-  SM2Facts -> forall klen ida idb dA dB rA rB,
+  P_prime -> Add_assoc -> G_order_divides_n -> G_multiples_finite -> forall klen ida idb dA dB rA rB,
     1 <= dA < sm2_n -> 1 <= dB < sm2_n -> 1 <= rA < sm2_n -> 1 <= rB < sm2_n ->
     kx_spec true klen ida idb dA (ScalarBaseMult dA) rA (ScalarBaseMult rA) (ScalarBaseMult dB) (ScalarBaseMult rB) =
     kx_spec false klen ida idb dB (ScalarBaseMult dB) rB (ScalarBaseMult rB) (ScalarBaseMult dA) (ScalarBaseMult rA).
 Proof. exact kx_spec_agree. Qed.
 Print Assumptions C13_kx_spec_agree.
+
+(* the same under the bundled premise SM2Facts *)
+Theorem C13_kx_agree_facts :
+  SM2Facts -> forall klen ida idb dA dB rA rB,
+    Z.of_nat (length ida) < 8192 -> Z.of_nat (length idb) < 8192 ->
+    1 <= dA < sm2_n -> 1 <= dB < sm2_n -> 1 <= rA < sm2_n -> 1 <= rB < sm2_n ->
+    KeyExchangeA klen ida idb (key_of dA) (ScalarBaseMult dB) (key_of rA) (ScalarBaseMult rB) =
+    KeyExchangeB klen ida idb (key_of dB) (ScalarBaseMult dA) (key_of rB) (ScalarBaseMult rA) \/
+    (exists e e', KeyExchangeA klen ida idb (key_of dA) (ScalarBaseMult dB) (key_of rA) (ScalarBaseMult rB) = Err e /\
+                  KeyExchangeB klen ida idb (key_of dB) (ScalarBaseMult dA) (key_of rB) (ScalarBaseMult rA) = Err e').
+Proof. intros F. destruct (facts_split F) as (Hp & _ & Ha & Hg & Hf). exact (KeyExchange_agree Hp Ha Hg Hf). Qed.
+Print Assumptions C13_kx_agree_facts.
 
 (* ---- 3. refusals (no premise): a peer ephemeral that is not a point of the curve with coordinates in
    [0,p) - this includes (0,0), the API's infinity - yields an error; so does V = O ---------------------- *)
@@ -79,6 +94,12 @@ Theorem C13_source_constants_tied :
    gen_decrypt_min = Z.of_nat (1 + 64 + 32 + 1)).
 Proof. exact (conj curve_params_tied sig_params_tied). Qed.
 Print Assumptions C13_source_constants_tied.
+
+(* ---- tie to the source, structure: slice bounds, offsets, padding widths, prefix bytes of Encrypt / Decrypt /
+   CipherMarshal / CipherUnmarshal / ZA / keCoordBytes as the translator reads them now (SM2/SM2ParamsTie.v) --- *)
+Theorem C13_source_layout_tied : layout_statement.
+Proof. exact layout_tied. Qed.
+Print Assumptions C13_source_layout_tied.
 
 (* ---- non-vacuity: concrete instances, evaluated.  A complete exchange needs 128- and 256-bit scalar
    multiplications (minutes under vm_compute); complete exchanges, incl. the GM/T 0003.5 Annex example,
